@@ -158,12 +158,54 @@ theorem C04_greenlet_slice (w : World) (ttf : List Frame) (hT : w.segs.flatten =
     cases hs : sliceOf ttf ji jo with
     | nil => rw [hs] at hlen; simp at hlen; omega
     | cons x xs => rfl
-  simp only [hg, if_true, hfirst, hnonempty, Bool.false_eq_true, if_false, applyLimit]
+  simp only [hg, if_true, hfirst, hnonempty, Bool.false_eq_true, if_false, applyLimit, Bool.false_and]
 
 /-! non-vacuity: a call depth of 3 in a child greenlet of a main greenlet with 2 frames -/
-def exWorld : World := ⟨[[5, 4, 3], [2, 1]], []⟩
+def exWorld : World := ⟨[[5, 4, 3], [2, 1]], [], []⟩
 
 example : unwrapSlice exWorld none none none = .frames [1, 2, 3, 4, 5] := by decide
 example : unwrapSlice exWorld (some 2) (some 4) none = .frames [2, 3, 4] := by decide
 example : unwrapSlice exWorld (some 2) none (some 2) = .frames [2, 3] := by decide
 example : unwrapSlice exWorld none (some 4) (some 2) = .frames [3, 4] := by decide
+
+/-! ### `outer` running on another thread (finding F26) -/
+
+/-- **C04_other_thread_limit**: the caller runs in the main greenlet with stack `c :: cs`; `outer` is not on that stack
+but on the stack of another thread whose `f_back` chain from its innermost frame `t` is `t :: rest`.  Then
+`StackSlice(outer=o, limit=n)` is `outer` followed by its callees, at most `n` frames — the limit is anchored at `outer`,
+as documented ("a limit keeps the frames nearest the given anchor: outer if only outer is given"). -/
+theorem C04_other_thread_limit (c t o : Frame) (cs rest : List Frame) (n : Nat)
+    (ht : t ∉ c :: cs) (ho : o ∉ c :: cs) (hoc : o ∈ t :: rest) :
+    unwrapSlice ⟨[c :: cs], [t :: rest], [t]⟩ (some o) none (some n) =
+      .frames (((((t :: rest).takeWhile (· != o)) ++ [o]).reverse).take n) := by
+  have hchainC : fbackChain ⟨[c :: cs], [t :: rest], [t]⟩ c = c :: cs := by
+    unfold fbackChain; simp [List.dropWhile_cons]
+  have hchainT : fbackChain ⟨[c :: cs], [t :: rest], [t]⟩ t = t :: rest := by
+    unfold fbackChain
+    have h1 : t ≠ c := fun h => ht (by simp [h])
+    have h2 : t ∉ cs := fun h => ht (by simp [h])
+    simp [List.find?_cons, h1, h2, List.dropWhile_cons]
+  have hmine : tryFrom ⟨[c :: cs], [t :: rest], [t]⟩ (some o) c = [] := by
+    unfold tryFrom
+    have : (c :: cs).contains o = false := by simpa using ho
+    simp only [hchainC, this, Bool.false_eq_true, if_false]
+  have htheirs : tryFrom ⟨[c :: cs], [t :: rest], [t]⟩ (some o) t = (((t :: rest).takeWhile (· != o)) ++ [o]).reverse := by
+    unfold tryFrom
+    have : (t :: rest).contains o = true := by simpa using hoc
+    simp only [hchainT, this, if_true]
+  have hne : ((((t :: rest).takeWhile (· != o)) ++ [o]).reverse).isEmpty = false := by simp
+  unfold unwrapSlice
+  simp only [List.length_cons, List.length_nil, ge_iff_le, Nat.reduceLeDiff, if_false, List.isEmpty_nil, if_true,
+    List.head?_cons, Option.bind_some, Option.getD_some, Option.getD_none, hmine, Option.isNone_none, Bool.and_self,
+    searchThreads, htheirs, hne, Bool.false_eq_true, applyLimit, Option.isSome_some, Bool.true_and]
+  split
+  · rfl
+  · rename_i hlen
+    rw [List.take_of_length_le (by omega)]
+
+/-- The code before F26 (the search loop rebound `inner_frame`): the same query keeps the frames nearest the *innermost*
+end and drops `outer` itself. -/
+theorem C04_F26_old_code_witness :
+    unwrapSliceOld ⟨[[9, 8]], [[3, 2, 1]], [3]⟩ (some 1) none (some 1) = .frames [3]
+    ∧ unwrapSlice ⟨[[9, 8]], [[3, 2, 1]], [3]⟩ (some 1) none (some 1) = .frames [1]
+    ∧ unwrapSlice ⟨[[9, 8]], [[3, 2, 1]], [3]⟩ (some 1) none (some 2) = .frames [1, 2] := by decide
